@@ -78,6 +78,7 @@ type inliner struct {
 	skipped      map[*ssa.Function]string
 	errs         []string
 	copyInOut    int
+	unrolled     int
 	litArgs      int                    // go/defer literals whose arguments were turned into captured variables
 	regionCopies int                    // calls through a function variable made direct by copying the code after a merge per way in
 	ever         map[*ssa.Function]bool // every function changed by the normalisation
@@ -3737,6 +3738,9 @@ func inlineHelpers(tops []*ssa.Function) (dropped map[*ssa.Function]bool, notes 
 	in := &inliner{cand: map[*ssa.Function]bool{}, touched: map[*ssa.Function]bool{}, sites: map[*ssa.Function]int{},
 		skipped: map[*ssa.Function]string{}}
 	for _, f := range tops {
+		in.unrollLiteralRanges(f)
+	}
+	for _, f := range tops {
 		if f.Synthetic != "" || f.Name() == "init" || base[funcKey(f)] {
 			continue
 		}
@@ -3893,6 +3897,9 @@ func inlineHelpers(tops []*ssa.Function) (dropped map[*ssa.Function]bool, notes 
 	}
 	if in.flagsNamed > 0 {
 		notes = append(notes, fmt.Sprintf("%d constant true flag(s) under a test of a flag returned by a module function read as that flag", in.flagsNamed))
+	}
+	if in.unrolled > 0 {
+		notes = append(notes, fmt.Sprintf("%d range loop(s) over a slice literal of a few elements replaced by one copy of the body per element", in.unrolled))
 	}
 	if in.copyInOut > 0 {
 		notes = append(notes, fmt.Sprintf("%d variable(s) of an inlined helper that hold a parameter handed back on every return and stored back by the caller (`v = h(.., v)`) replaced by the caller's variable", in.copyInOut))
